@@ -62,7 +62,7 @@ def gen(prop, stream, tier, avoid):
         objs.append(spec)
     use_cont = kn.chance(0.6)
     nops = kn.pick([3, 4, 5, 6, 8, 10, 14, 20] + ([30, 40] if tier == "thorough" else []))
-    W = [("sample", 3), ("tessellate", 3), ("read", 4), ("edit", 1.5), ("quad", 0.7), ("export", 3), ("bad_tessellate", 0.5), ("subeval", 0.6)]
+    W = [("sample", 3), ("tessellate", 3), ("read", 4), ("edit", 1.5), ("quad", 0.7), ("export", 3), ("bad_tessellate", 0.5), ("subeval", 0.6), ("direct", 0.8)]
     if use_cont:
         W += [("cadd", 2.5), ("csample", 1), ("ctess", 2.5), ("cread", 2.5), ("ctessellator", 0.6)]
     W = [(k, w * kn.uniform(0.4, 1.4)) for k, w in W]
@@ -85,6 +85,9 @@ def gen(prop, stream, tier, avoid):
             op["force"] = rng.chance(0.5)
         elif k == "edit":
             op["seed"] = rng.randrange(1 << 30)
+        elif k == "direct":
+            op["spacing"] = rng.randrange(6)
+            op["via"] = rng.pick(["class", "class", "function"])
         elif k == "subeval":
             # the caller evaluates part of the domain only (documented: evaluate(start_u=..., stop_u=..., ...)); in 1/16 of the domain
             a_, b_ = sorted(rng.sample(range(0, 17), 2))
@@ -535,6 +538,31 @@ def run(script, ctx):
             ctx.log("edit", i)
             ctx.ops_executed += 1
             touched(st)
+        elif k == "direct":
+            # the tessellation component used on its own, on the sample grid of the surface (documented usage of geomdl.tessellate):
+            # nothing re-evaluates the vertices afterwards, the positions are the sample points themselves
+            tw = shapes.twin(s)
+            nu, nv = tw.sample_size
+            pts = tw.evalpts
+            divs = _divisors(nu, nv)
+            sp = divs[op["spacing"] % len(divs)]
+            try:
+                if op["via"] == "function":
+                    vl, fl_ = g.tessellate.make_triangle_mesh(pts, nu, nv, vertex_spacing=sp)
+                else:
+                    comp = g.tessellate.TriangularTessellate()
+                    comp.tessellate(pts, size_u=nu, size_v=nv, vertex_spacing=sp)
+                    vl, fl_ = comp.vertices, comp.faces
+                V = [[v.id, list(v.uv), list(v.data)] for v in vl]
+                F = [list(f.vertex_ids) for f in fl_]
+            except Exception as e:
+                ctx.fail("tessellate_failed", "direct use of the triangular tessellation (%s) on a %dx%d sample grid, vertex_spacing=%d raised %r" % (
+                    op["via"], nu, nv, sp, e), op=k, trimmed=False)
+            ctx.log("direct", i, op["via"], nu, nv, sp)
+            ctx.ops_executed += 1
+            ctx.probe("tessellator_used_directly" + (":spacing_gt_1" if sp > 1 else ""))
+            check_mesh(ctx, V, F, tw, "direct triangular tessellation (%s) of the %dx%d sample grid of surface #%d, vertex_spacing=%d" % (op["via"], nu, nv, i, sp),
+                       dict(op=k, trimmed=False), expect_spacing=sp, sample=(nu, nv), id_offset=V[0][0] if V else 0)
         elif k == "subeval":
             a_, b_, c_, d_ = op["range"]
             kw = {}
